@@ -105,6 +105,9 @@ def g_arith(rng, d):
     if r < 0.91:
         return ["sub", ["var", rng.choice(ARRS)], rng.choice([["num", 0], ["num", 2], ["var", "kk"],
                                                               ["+", ["var", "kk"], ["num", 1]]])]
+    if r < 0.925:
+        # a one-entry index TUPLE (what var("a")[i,] and Assign's own left-hand sides hold); prints as a[i]
+        return ["msub", ["var", rng.choice(ARRS)], rng.choice([["num", 0], ["var", "kk"]])]
     if r < 0.94:
         return ["msub", ["var", "mat"], rng.choice([["num", 0], ["var", "kk"]]),
                 rng.choice([["num", 1], ["var", "kk"]])]
@@ -232,6 +235,17 @@ def roundtrip(e, rec=None):
     variables(sb, set(), f2)
     if v1 | f1 != v2 | f2:
         return ("variables-differ", f"{s1!r}: variables {sorted(v1 | f1)} became {sorted(v2 | f2)}")
+    # ... and as the library itself counts them (what dependency tracking sees)
+    from dagrt.utils import get_variables
+    g1, g2 = set(get_variables(pe)), set(get_variables(back))
+    if rec is not None:
+        rec.count("library_variable_sets_compared")
+    if g1 != g2:
+        return ("library-variable-sets-differ",
+                f"{s1!r}: get_variables of the expression {sorted(g1)}, of its re-parsed form {sorted(g2)}")
+    if g1 != v1:
+        return ("library-variable-set-wrong", f"{s1!r}: get_variables gives {sorted(g1)}, the expression mentions "
+                f"{sorted(v1)}")
     names = v1 | v2
     for pt in range(5):
         st = valuation(pt, names)
